@@ -123,6 +123,8 @@ class Ctx:
         self.nontrivial = False
         self.sig = None         # history signature (string) for distinct counting
         self.notes = {}
+        self.cleanups = []      # callables run after the scenario, whatever its outcome (e.g. StepGate.abandon)
+        self.in_step = False    # True while the harness thread operates inside a parked timestep (simkit.stepgate)
 
     def event(self, *items):
         self.seq += 1
@@ -223,7 +225,11 @@ def execute(mod, scenario, keep_trace=False):
     if np is not None:
         np.random.seed(20260927)
     try:
-        mod.execute(scenario, ctx)
+        try:
+            mod.execute(scenario, ctx)
+        finally:
+            for fn in ctx.cleanups:
+                fn()
     except Violation as v:
         viol = {"kind": v.kind, "seq": ctx.seq, "detail": v.detail, "finding": v.finding}
     except RunTimeout:
